@@ -46,7 +46,7 @@ def main(argv):
     if cmd == "replay":
         from . import runner
         path = argv[1]
-        doc, r = runner.replay_file(path)
+        doc, r = runner.replay_file(path, strict=True)
         want = doc.get("violation", {}).get("signature")
         got = r.violation.signature if r.violation else None
         print("replay %s: recorded=%s observed=%s digest=%s events=%d" % (path, want, got, r.digest, r.n_events))
